@@ -5,6 +5,7 @@ import (
 	"crypto/elliptic"
 	"fmt"
 	"math/big"
+	"strings"
 
 	cose "github.com/veraison/go-cose"
 
@@ -204,6 +205,12 @@ func runC15(c *Ctx) {
 		}
 	})
 
+	// fixed witness of known finding F3, so that it is reported by every run
+	{
+		w := gen.KeyMap([]gen.KeyEntry{{Label: refcbor.NInt(1), Value: refcbor.NInt(4)}, {Label: refcbor.NInt(-1), Value: refcbor.NBstr([]byte("0123456789abcdef"))},
+			{Label: refcbor.NTstr("custom"), Value: refcbor.NTag(2, refcbor.NBstr([]byte{0x8b, 0x4d, 0x79, 0x46, 0x1c, 0xcf, 0x75, 0xba}))}})
+		c15judgeWire(rec, refcbor.Encode(w), "fixed-witness/bignum-parameter", "witness")
+	}
 	// ---- hand-built Key values: the gate must hold for values that never went through the decoder ----
 	goAlgs := []cose.Algorithm{0, cose.AlgorithmES256, cose.AlgorithmES384, cose.AlgorithmES512, cose.AlgorithmEdDSA, cose.AlgorithmPS256, 99}
 	goOps := [][]cose.KeyOp{nil, {}, {cose.KeyOpSign}, {cose.KeyOpVerify}, {cose.KeyOpSign, cose.KeyOpVerify}, {cose.KeyOpEncrypt}, {77, cose.KeyOpVerify}}
@@ -545,7 +552,14 @@ func c15judgeWire(rec *mon.Recorder, b []byte, cell, source string) {
 	}
 	var k2 cose.Key
 	if err = k2.UnmarshalCBOR(c1); err != nil {
-		rec.Violate("reencoding-refused", source, "re-encoded key is refused by the decoder: "+err.Error()+" "+hexs(c1), in)
+		key := source
+		if strings.Contains(err.Error(), "overflows Go's int64") && c09hasBignumWitness(b) {
+			// input class of known finding F3 (root cause shared with F1): a parameter value written as a
+			// positive bignum between 2^63 and 2^64 becomes a big.Int and is re-encoded as a plain uint
+			key = "positive-bignum-between-2^63-and-2^64-reencoded-as-uint"
+			rec.Event("F3-witness")
+		}
+		rec.Violate("reencoding-refused", key, "re-encoded key is refused by the decoder: "+err.Error()+" "+hexs(c1), in)
 		return
 	}
 	c2, err := k2.MarshalCBOR()
